@@ -37,10 +37,13 @@ CONFIG = dict(
                   "for next_inner in the insert form, /repo commit 448262b)"],
     assumptions=["hook results are tuples/lists/FrameIterators of frames and objects; hooks are deterministic",
                  "unwrap tables are rank-ordered (acyclic) apart from the linear self-loop (a branching cyclic unwrap does not terminate and is outside 'item trees')",
+                 "every generated table that is rank-ordered carries the claim `ranked n` + `fuel_bound <= default_fuel`, re-checked inside Coq (rank_claim_ok); "
+                 "frames may share a code object (frame kind samecode / second generator instance gen2): they share one elaborate_frame row",
                  "theorem domain `plain`: no injected faults, with_contexts=False, the three hook call sites guarded (guards regenerated from source: C10_guards_regenerated)"],
-    unproved_legs=["fuel sufficiency for rank-ordered tables is not proved in general (C10_model_eq_ref is conditional on extract <> OutOfFuel; "
-                   "the cases never return OutOfFuel - an OutOfFuel model result would show as a mismatch); it is proved for the guard chain (C10_guard_any_fuel)",
-                   "C10_prefix_local of the design is not stated separately (it follows from C10_frame_rule: the continuation depends only on the edited sequence)",
+    unproved_legs=["C10_prefix_local of the design is not stated separately (it follows from C10_frame_rule: the continuation depends only on the edited sequence)",
+                   "fuel sufficiency (C10_fuel_sufficient / C10_model_eq_ref_total) needs `ranked n c root`: tables with a non-final next_inner, the guard "
+                   "chains/self-loop and generator objects are outside it (for those C10_model_eq_ref keeps the side condition extract <> OutOfFuel; the guard chain "
+                   "has its own C10_guard_any_fuel)",
                    "contexts / faults / origins are outside these theorems (C05, C16)"],
     NOTES=("Deviation from DESIGN: the reference re-unwraps the re-queued rest after a replace/insert (as the code does: a leaf whose hook raises "
            "reports its error again, an item stopped by the guard may unwrap further), so model=reference holds without side conditions; "
